@@ -102,7 +102,7 @@ Definition io_handlers : handlers (io C) := {|
   h_mark_boundary := fun s => Ok (upd_r (set_boundary (ndesc s)) s);
   h_recall_bitmap := fun s =>
     match r_bitmapped (w_r s) with
-    | None => Err EType                       (* iter(None) *)
+    | None => Err ELib                        (* no bitmap is defined for recall *)
     | Some l => Ok (upd_r (set_next_bm (Some l)) s)
     end;
   h_cancel_bitmap := fun s => Ok (upd_r (set_bitmap_set false) s);
